@@ -49,7 +49,7 @@ pub fn model_seek(sf: SeekFrom, len: u64, pos: u64) -> Option<u64> {
 }
 
 impl Engine {
-    fn close_slot(&mut self, slot: usize) -> Result<(), Fail> {
+    pub(crate) fn close_slot(&mut self, slot: usize) -> Result<(), Fail> {
         if let Some(h) = self.handles[slot].take() {
             guard("h_close", move || drop(h.stream))?;
         }
@@ -131,7 +131,27 @@ impl Engine {
             _ => unreachable!("not a handle op"),
         };
         if self.handles[slot].is_none() {
-            return Ok(());
+            if matches!(op, Op::HClose { .. }) {
+                return Ok(());
+            }
+            // empty slot: open a handle on an existing stream first (deterministic choice)
+            let idx = ((self.op_index as u32).wrapping_mul(40503).wrapping_add(slot as u32 * 21845) & 0xffff) as u16;
+            let streams = self.model.streams();
+            let free: Vec<&Vec<String>> = streams.iter().filter(|s| self.handle_on(s).is_none()).collect();
+            if free.is_empty() {
+                return Ok(());
+            }
+            let target = free[pick(idx, free.len())].clone();
+            let path = std::path::PathBuf::from(path_string(&target));
+            self.trace.push(format!("h{} = open_stream({:?}) [auto]", slot, path));
+            let res = guard("open_stream", || self.lib().open_stream(&path))?;
+            match res {
+                Ok(st) => {
+                    self.handles[slot] = Some(Handle { stream: st, path: target, pos: 0, dirty: false });
+                    self.stats.bump("handle_opened");
+                }
+                Err(e) => return Err(Fail::new("mismatch|open_stream|exists|Ok|Err", format!("open_stream({:?}) failed: {}", path, e))),
+            }
         }
         if let Op::HClose { .. } = op {
             self.trace.push(format!("drop(h{})", slot));
